@@ -163,6 +163,18 @@ class RuntimeAssertionFeedback(AssertionFeedback):
         fields['assertion_message'] = assertion_message
         fields['explanation'] = explanation
 
+        # An operand that is itself an error, or a relation that cannot even
+        # be evaluated for these operands, means the assertion does not hold.
+        relation = self.condition
+
+        def condition(*condition_args, **condition_kwargs):
+            if left.is_error or right.is_error:
+                return True
+            try:
+                return relation(*condition_args, **condition_kwargs)
+            except Exception:
+                return True
+        self.condition = condition
         try:
             super().__init__(left, right, *args, **kwargs)
         except Exception as e:
